@@ -232,7 +232,9 @@ def main():
             r = kres.get(hn)
             if r is None:
                 continue
-            checker_cmds.append("(cd build/kani_%s && %s)" % (cname, r["cmd"]))
+            kcmd = "(cd build/kani_%s && %s)" % (cname, r["cmd"].replace("harnesses::" + hn, "harnesses::<each of the %d harnesses listed in obligation_table>" % len(kspec["harnesses"])))
+            if kcmd not in checker_cmds:
+                checker_cmds.append(kcmd)
             solver_ms += r["s"] * 1000.0
             ob = {"unit": "kani:%s" % cname, "label": h["label"], "kind": "kani-" + h["kind"], "obligation": "kani/%s/%s" % (cname, h["label"]),
                   "text": h["text"] + (" [BOUNDED: %s]" % h["bound"] if h.get("bound") else ""), "backend": "kani 0.68/cbmc", "ms": r["s"] * 1000.0, "group": "kani:" + cname,
@@ -255,7 +257,7 @@ def main():
                 ob["discharged"] = False
                 inp = kanilib.decode_inputs(h, r.get("playback"))
                 rep = None
-                if inp is not None:
+                if inp is not None and not os.environ.get("VERIF_NO_REPLAY"):
                     try:
                         rep = kanilib.replay_real(cname, hn, inp)
                     except Exception as e:  # noqa: BLE001
@@ -285,6 +287,7 @@ def main():
     selftest = {"run": 0, "as_expected": 0, "unexpected": []}
     if tier == "thorough" and not os.environ.get("VERIF_NO_SELFTEST") and not failures and not undecided:
         import mutate as mutlib
+        os.environ["VERIF_SELFTEST_FAST"] = "1"  # inside the regression only the exit code matters: Kani counterexamples are not replayed
         jobs = []
         for gname in spec["groups"]:
             fp = os.path.join(ROOT, "faults", gname + ".json")
@@ -410,7 +413,7 @@ def main():
                 "A-REAL: f64/uom quantities modelled as mathematical reals (prelude/q_real.rs, every external_body there is an axiom)",
                 "vx extractor and its enumerated rewrite rules (counts under rules_fired)",
                 "Verus 0.2026.09.13 + vstd specs + bundled Z3",
-            ],
+            ] + (["Kani 0.68 + CBMC 6.11 (IEEE-754 float model of CBMC; prelude/q_f64.rs is executable Rust, no axioms)"] if spec.get("kani") else []),
             "samples": [{"obligation": o["obligation"], "text": o["text"], "discharged": o.get("discharged")} for o in obligations[:6]],
             "functions_under_contract": [f for f in functions if f["under_contract"]],
             "types_extracted": [f["id"] for f in functions if not f["under_contract"]],
